@@ -563,6 +563,58 @@ pub fn run(kv: &Args) -> i32 {
         oracle_fail.extend(o.oracle);
     }
 
+    // ---------------------------------------------------------------- implementation-only sweep: many single-bit flips
+    // against the real eval_pprf only (cheap), so that acceptance bugs that show on a small fraction of corruptions
+    // (e.g. a weakened digest comparison) are hit; expectation from the region class as above
+    {
+        let n_sweep: usize = if thorough { 80_000 } else { 8_000 };
+        let mut plan: Vec<(usize, usize, usize, usize)> = Vec::with_capacity(n_sweep);
+        for n in 0..n_sweep {
+            let bi = n % nb;
+            let tree = (r.next_u32() as usize) % NT;
+            let off = (r.next_u32() as usize) % TREE_MSG;
+            let b = (r.next_u32() as usize) % 8;
+            plan.push((bi, tree, off, b));
+        }
+        let nthreads = 8usize;
+        let found: Vec<Vec<String>> = std::thread::scope(|sc| {
+            let hs = &hs;
+            let plan = &plan;
+            let region = &region;
+            let handles: Vec<_> = (0..nthreads).map(|t| sc.spawn(move || {
+                let zero_seed = vec![0u8; std::mem::size_of::<ReceiverOTSeed>()];
+                let mut bad = vec![];
+                let mut i = t;
+                while i < plan.len() {
+                    let (bi, tree, off, b) = plan[i];
+                    let h = &hs[bi];
+                    let (reg, expect) = region(h, tree, off);
+                    let msg = flip(h, tree, off, b);
+                    let (verdict, rseed) = real_eval(&h.sid, &h.base, &msg, &zero_seed);
+                    if let Some(e) = expect {
+                        if verdict.is_ok() != e {
+                            bad.push(format!("sweep flip-{reg} base={bi} tree={tree} offset={off} bit {b}: eval_pprf {} but the property demands {}; {}",
+                                if verdict.is_ok() { "accepted" } else { "rejected" }, if e { "acceptance" } else { "rejection" },
+                                full_input(&h.sid, &h.base, &msg)));
+                        }
+                    }
+                    if verdict.is_ok() {
+                        if let Some(w) = leaves_property(&h.base, &h.sseed, &rseed) {
+                            bad.push(format!("sweep flip-{reg} base={bi} tree={tree} offset={off} bit {b}: eval_pprf accepted but {w}; {}",
+                                full_input(&h.sid, &h.base, &msg)));
+                        }
+                    }
+                    i += nthreads;
+                }
+                bad
+            })).collect();
+            handles.into_iter().map(|h| h.join().expect("sweep worker panicked")).collect()
+        });
+        n_eval += n_sweep as u64;
+        *kinds.entry("oracle-only-bitflip-sweep".into()).or_default() += n_sweep as u64;
+        for v in found { oracle_fail.extend(v.into_iter().take(5)); }
+    }
+
     let mut f = std::fs::File::create(format!("{out}/result.txt")).unwrap();
     writeln!(f, "evaluations {n_eval}").unwrap();
     writeln!(f, "mutations {n_nontrivial}").unwrap();
